@@ -1064,6 +1064,25 @@ func c02SlicesA(thorough bool) []c02Slice {
 	}
 	g3 := c02Grid{Formats: c02AllFormats, Encs: c02AllEncs, LBs: c02AllLBs, Bools: true, Strip: []bool{false, true}, Paths: c02AllPaths}
 	s = append(s, c02Slice{"dialects", fixed, g3})
+	// S5: long tables: row counts around the loaders' buffer sizes (300 prepared records, then regrown by estimate)
+	var long []m.Table
+	counts := []int{300, 301, 601, 1201}
+	if thorough {
+		counts = []int{1, 299, 300, 301, 302, 599, 600, 601, 901, 1201, 2401, 5000}
+	}
+	for _, n := range counts {
+		t := m.Table{Header: []string{"c1", "c2"}}
+		for i := 0; i < n; i++ {
+			t.Rows = append(t.Rows, []m.Cell{m.Str(fmt.Sprintf("r%d", i)), m.Str(strings.Repeat("x", i%7))})
+		}
+		long = append(long, t)
+	}
+	g5 := c02Grid{Formats: c02AllFormats, Encs: []string{"UTF8"}, LBs: []string{"LF"}, Strip: []bool{false}, Paths: c02AllPaths}
+	if thorough {
+		g5.LBs = []string{"LF", "CRLF"}
+		g5.Encs = []string{"UTF8", "UTF16LE"}
+	}
+	s = append(s, c02Slice{"long", long, g5})
 	// S4: header pairs
 	var ht []m.Table
 	for _, h1 := range c02Headers {
